@@ -49,7 +49,9 @@ func (r *intervalStream) worker(ctx context.Context, interval time.Duration) {
 		case <-ctx.Done():
 			return
 		case <-ticker.C:
+			vpoint("fl.tick")
 			r.Lock()
+			vpoint("fl.locked")
 			// check context error in case in between the time when
 			// the lock is requested and when the lock is obtained,
 			// the context has been canceled
